@@ -371,6 +371,34 @@ func runWireTaint(c *core.Ctx) []core.Obligation {
 		}
 	}
 
+	// ---------------- decode-side accounting uses the counts of bytes actually read: the encoder's
+	// size helpers (minimal encodings) never appear in a decode function
+	{
+		nDec, bad := 0, 0
+		for _, fn := range c.RepoFunctions() {
+			name := shortName(fn)
+			if fn.Blocks == nil || !strings.HasPrefix(name, "proto.") {
+				continue
+			}
+			low := strings.ToLower(name)
+			if !(strings.Contains(low, "decode") || strings.HasSuffix(name, ".Parse") || strings.Contains(name, "Scan")) {
+				continue
+			}
+			nDec++
+			for _, ci := range callsIn(fn) {
+				f := staticCallee(ci.Common())
+				if f == nil || !strings.HasPrefix(f.Name(), "sizeOf") {
+					continue
+				}
+				bad++
+				b.addP([]string{"C07", "C12"}, core.Violation, fmt.Sprintf("decode-count-from-read:%s:%s", name, f.Name()), c.InstrPos(ci), fmt.Sprintf("%s computes how far to advance with %s, the size of the *minimal* encoding of a value, instead of the number of bytes it read: a field whose length prefix is a padded varint (83 00 for 3) is valid on the wire, and the decoder resumes in the middle of it", name, f.Name()))
+			}
+		}
+		if bad == 0 {
+			b.addP([]string{"C07", "C12"}, core.Discharged, "decode-count-from-read", "proto", fmt.Sprintf("%d decode-side functions, none calls an encoder-side sizeOf* helper", nDec))
+		}
+	}
+
 	// ---------------- thrift element counts that bound a loop: negative counts are rejected
 	for _, fn := range c.RepoFunctions() {
 		if fn.Blocks == nil || !strings.HasPrefix(shortName(fn), "thrift.") || fn.Synthetic != "" {
